@@ -178,6 +178,7 @@ type Driver struct {
 	Seed   uint64
 	Start  time.Time
 	Clocks []*SimClock
+	evMu   sync.Mutex // At/AtAbs may be called from refinery goroutines (e.g. a publish)
 	evs    []*simEvent
 	// AfterStep runs at quiescence after every delivered stimulus.
 	AfterStep func(kind, ident string)
@@ -214,16 +215,22 @@ func (d *Driver) Settle() {
 
 // At schedules fn at offset at from the run start.
 func (d *Driver) At(at time.Duration, kind, ident string, fn func()) {
+	d.evMu.Lock()
+	defer d.evMu.Unlock()
 	d.evs = append(d.evs, &simEvent{at: d.Start.Add(at), ident: ident, kind: kind, fn: fn, sig: ident})
 }
 
 // AtSig is At with an explicit schedule-signature target.
 func (d *Driver) AtSig(at time.Duration, kind, ident, sig string, fn func()) {
+	d.evMu.Lock()
+	defer d.evMu.Unlock()
 	d.evs = append(d.evs, &simEvent{at: d.Start.Add(at), ident: ident, kind: kind, fn: fn, sig: sig})
 }
 
 // AtAbs schedules at an absolute bubble time.
 func (d *Driver) AtAbs(at time.Time, kind, ident string, fn func()) {
+	d.evMu.Lock()
+	defer d.evMu.Unlock()
 	d.evs = append(d.evs, &simEvent{at: at, ident: ident, kind: kind, fn: fn, sig: ident})
 }
 
@@ -240,7 +247,10 @@ func (d *Driver) allTickers() []*SimTicker {
 func (d *Driver) nextFuture(now time.Time) (time.Time, bool) {
 	var best time.Time
 	ok := false
-	for _, e := range d.evs {
+	d.evMu.Lock()
+	evs := append([]*simEvent(nil), d.evs...)
+	d.evMu.Unlock()
+	for _, e := range evs {
 		if e.at.After(now) && (!ok || e.at.Before(best)) {
 			best, ok = e.at, true
 		}
@@ -278,13 +288,17 @@ func (d *Driver) expandTicks(now time.Time) {
 			if delay > 0 {
 				d.Out.Fault("tick_late")
 			}
+			d.evMu.Lock()
 			d.evs = append(d.evs, &simEvent{at: at.Add(delay), ident: fmt.Sprintf("tick/%s/%d", tk.Key, fire), kind: "tick", tk: tk})
+			d.evMu.Unlock()
 		}
 		t.clk.mu.Unlock()
 	}
 }
 
 func (d *Driver) popDue(now time.Time) *simEvent {
+	d.evMu.Lock()
+	defer d.evMu.Unlock()
 	var due []*simEvent
 	for _, e := range d.evs {
 		if !e.at.After(now) {
